@@ -20,6 +20,13 @@ def run(ck):
         ck.guard("C06-R4", r4_merge_once, ck, F)
         ck.guard("C06-R5", r5_pop_push, ck, F)
         ck.guard("C06-R6", r6_stream, ck, F)
+        # the merger consumes each source with move_on_first / move_on_next: their single steps across block
+        # boundaries are a necessary condition of a complete key union (shared with C03-R5 / C01-R7)
+        from .c03 import r5_wrappers, r3_reset
+        from .c01 import r7_mirror
+        ck.guard("C06-R7", r5_wrappers, ck, F, "C06-R7")
+        ck.guard("C06-R7", r7_mirror, ck, F, "C06-R7")
+        ck.guard("C06-R7", r3_reset, ck, F, "C06-R7")
     ck.trusted += ["rustc MIR construction", "std BinaryHeap / Iterator adaptors"]
 
 
